@@ -125,6 +125,44 @@ pub fn check(case: &Case, obs: &mut Obs) -> Verdict {
 }
 
 fn extra(cfg: &RunCfg, w: &mut Worker) {
+    // long-range interaction and size thresholds: texts around 2^8, 2^12, 2^16 bytes (and larger) before / after a
+    // short paragraph, for every option combination of the grid (sharded over workers)
+    {
+        let mut r = Rng::stream(cfg.seed, &["C09", "huge"], w.id as u64);
+        let sizes: &[usize] = if cfg.thorough { &[250, 256, 4090, 4096, 4100, 65530, 65536, 65600, 102_400, 300_000] } else { &[4096, 65600] };
+        let grid = small_option_grid();
+        let threads = cfg.threads.max(1);
+        let mut idx = 0usize;
+        for &target in sizes {
+            for g in &grid {
+                for variant in 0..2 {
+                    idx += 1;
+                    if idx % threads != w.id {
+                        continue;
+                    }
+                    let mut big = String::new();
+                    let many_paragraphs = variant == 1;
+                    while big.len() < target {
+                        big.push_str(&gen_line(&mut r, TextDomain::Clean));
+                        big.push_str(if many_paragraphs && r.chance(1, 4) { "  \n" } else { " " });
+                    }
+                    let short = "To be, or not to be: that is the question   ".to_string();
+                    let mut o = g.clone();
+                    o.width = *r.pick(&[10usize, 20, 72]);
+                    if r.chance(1, 4) {
+                        o.si = "  ".to_string();
+                    }
+                    let case = if r.coin() {
+                        Case::new("rel").text(big).text("x".to_string()).text(short).opt(o)
+                    } else {
+                        Case::new("rel").text(short).text("y".to_string()).text(big).opt(o)
+                    };
+                    w.run_case(&case);
+                    *w.stats.counters.entry("huge_texts".to_string()).or_insert(0) += 1;
+                }
+            }
+        }
+    }
     corpus_subrun(cfg, w, |i, paras, width, v| {
         if i + 2 >= paras.len() {
             return None;
@@ -142,7 +180,7 @@ pub fn prop() -> Prop {
         panic_is_violation: false,
         budget: (900000, 24000000),
         extra: Some(extra),
-        required: &["wrapped_paragraph", "empty_side", "multi_paragraph_side", "empty_indent_equals_wrap_b"],
+        required: &["huge_texts", "wrapped_paragraph", "empty_side", "multi_paragraph_side", "empty_indent_equals_wrap_b"],
         known: None,
     }
 }
